@@ -219,6 +219,9 @@ class World:
             if not o.ok:
                 return o
             self.last_line_obj = o.value
+            # how the caller's line writes before the call (an invalid line made at level 0 carries a marker)
+            t = core.call(str, o.value)
+            self.last_line_obj_text = t.value if t.ok else None
             return core.call(self.gfa.add_line, o.value)
         return core.call(self.gfa.add_line, op["line"])
 
@@ -314,6 +317,15 @@ def _w_grp_conflict(self, op):
     return core.call(self.gfa.add_line, "%s\t%s\t%s\tzc:i:2" % (op["rt"], op["id"], op["item"]))
 
 
+def _w_header_add(self, op):
+    """header.add(tag, value[, datatype]) -- the multi-value aware setter of the header line"""
+    h = self.gfa.header
+    if op.get("dtype"):
+        return core.call(h.add, op["tag"], op["value"], op["dtype"])
+    return core.call(h.add, op["tag"], op["value"])
+
+
+World.do_header_add = _w_header_add
 World.do_set_field = _w_set_field
 World.do_readd_connected = _w_readd_connected
 World.do_grp_conflict = _w_grp_conflict
